@@ -21,6 +21,7 @@ RULE = (
     "Literal[1]<=int, X<=Optional[X]): for accepted pairs and every shape both bind, the expected parameter type "
     "is included in the actual one and ret(g) in ret(f). Non-trivial = accepted pair with different parameter "
     "lists (distinct by header pair)."
+    " The listed 'multiple values' finding is keyed by the parameter kinds of the expected signature (it needs a positional-only parameter or *args there)."
 )
 ASSUMPTIONS = [
     "only accepted pairs are checked (the property is one-directional)",
